@@ -90,13 +90,15 @@ def sec_geom(draw):
 def sec_nms(draw):
     n = draw(st.integers(0, 8))
     # pixels, or coordinates normalised to the image (box heights then lie inside the score range)
-    unit = draw(st.sampled_from([1.0, 1.0, 0.01]))
+    unit = draw(st.sampled_from([1.0, 0.01]))
     cx, cy = draw(fl(-200, 200)), draw(fl(-200, 200))
     dets = []
     for _ in range(n):
         dets.append({"box": {"ctor": "new", "xc": f32(unit * (cx + draw(fl(-30, 30)))), "yc": f32(unit * (cy + draw(fl(-30, 30)))), "angle": draw(st.one_of(st.none(), fl(-1.0, 1.0))), "aspect": draw(fl(0.5, 2.0)), "height": f32(unit * draw(fl(10, 60))), "confidence": 1.0},
-                     "score": draw(st.one_of(st.none(), fl(0.05, 0.95), st.sampled_from([0.0, -0.5, -2.0])))})
-    return {"kind": "nms", "dets": dets, "nms_threshold": draw(fl(0.1, 0.9)), "score_threshold": draw(st.one_of(st.none(), fl(0.0, 0.9)))}
+                     "score": draw(st.one_of(st.none(), st.none(), fl(0.05, 0.95), st.sampled_from([0.0, -0.5, -2.0])))})
+    # (with normalised coordinates the score threshold is mostly given and lies among the box heights)
+    thr = st.one_of(st.none(), fl(0.0, 0.9)) if unit == 1.0 else st.one_of(st.none(), fl(0.1, 0.7), fl(0.1, 0.7), fl(0.1, 0.7))
+    return {"kind": "nms", "dets": dets, "nms_threshold": draw(fl(0.1, 0.9)), "score_threshold": draw(thr)}
 
 
 kf_weights = st.one_of(st.none(), st.tuples(fl(0.01, 0.3), fl(0.001, 0.03)))
@@ -798,6 +800,8 @@ def one(script):
         stats["evaluations"] += 1
         for s in script["sections"]:
             stats["labels"][s["kind"]] = stats["labels"].get(s["kind"], 0) + 1
+            if s["kind"] == "nms" and s["score_threshold"] is not None and any(d["score"] is None and d["box"]["height"] <= s["score_threshold"] for d in s["dets"]):
+                stats["labels"]["nms_unscored_box_lower_than_score_threshold"] = stats["labels"].get("nms_unscored_box_lower_than_score_threshold", 0) + 1
         if nontrivial(script):
             stats["nontrivial"].add(hashlib.sha1(json.dumps(script, sort_keys=True).encode()).hexdigest())
             if len(stats["samples"]) < 2:
